@@ -168,55 +168,83 @@ def classify(prop, results, known):
 
 
 def replay(ov, prop, item, extra, timeout=900):
-    """Concrete playback of one failing harness; returns (reproduced: bool|None, path, note)."""
+    """Concrete playback of one failing harness; returns (reproduced: bool|None, path, note).
+
+    Kani prints one unit test per failing check / cover (`--concrete-playback=print`).  The tests are
+    appended as a `#[cfg(test)] mod verif_playback` to the harness file in the overlay (Kani's own
+    `inplace` mode cannot place tests for macro-generated harnesses) and run natively with
+    `cargo kani playback` in the dev and the release profile."""
     h = item["harness"]
-    short = h.rsplit("::", 1)[-1]
-    uniq = "__".join(h.split("::")[-3:]) if h.count("::") >= 2 else short
+    parts = h.split("::")
+    short = parts[-1]
+    vi = max(i for i, x in enumerate(parts) if x.startswith("verif_"))
+    rel = "::".join(parts[vi + 1:])
+    uniq = "__".join(parts[-3:]) if len(parts) >= 3 else short
     outdir = os.path.join(os.environ.get("VERIF_REPLAY_DIR") or os.path.join(VERIF, "replays"), prop)
     os.makedirs(outdir, exist_ok=True)
     path = os.path.join(outdir, uniq + ".rs")
-    cmd = ["cargo", "kani", "--harness", h, "--exact", "-Z", "concrete-playback", "--concrete-playback=inplace"] + extra
+    cmd = ["cargo", "kani", "--harness", h, "--exact", "-Z", "concrete-playback", "--concrete-playback=print"] + extra
     try:
         p = subprocess.run(cmd, cwd=ov, env=ENV, capture_output=True, text=True, timeout=timeout)
     except subprocess.TimeoutExpired:
         return None, path, "playback generation timed out"
-    tests, gen_src = [], None
-    for d, _, fs in os.walk(os.path.join(ov, "src")):
-        for f in fs:
-            if f.endswith(".rs"):
-                s = open(os.path.join(d, f)).read()
-                found = re.findall(r"fn (kani_concrete_playback_" + re.escape(short) + r"_\d+)\(\)", s)
-                if found:
-                    tests += found
-                    gen_src = s
-    if not tests:
+    blocks = re.findall(r"#\[test\]\s*\nfn kani_concrete_playback_\w+\(\) \{.*?\n\}\n", p.stdout, re.S)
+    seen_names, uniq_blocks = set(), []
+    for b in blocks:
+        nm = re.search(r"fn (kani_concrete_playback_\w+)\(", b).group(1)
+        if nm not in seen_names:
+            seen_names.add(nm)
+            uniq_blocks.append(b)
+    blocks = uniq_blocks
+    if not blocks:
         open(path, "w").write("// no concrete playback test was generated\n// " + item["label"] + "\n")
         return None, path, "no playback test generated"
-    blocks = re.findall(r"(?:///[^\n]*\n)*#\[test\]\s*\nfn kani_concrete_playback_" + re.escape(short) + r"_\d+\(\) \{.*?\n\}\n",
-                        gen_src, re.S)
+    body = "\n".join(blocks).replace(f"concrete_vals, {short})", f"concrete_vals, super::{rel})")
     with open(path, "w") as fh:
         fh.write(f"// Replay for {item['property']} / {h}\n// failing obligation: {item['label']}\n"
                  f"// generated by `cargo kani -Z concrete-playback` on the overlay of /repo (tools/overlay.py);\n"
-                 f"// to re-run: build the overlay, paste these tests next to the harness and run\n"
-                 f"//   cargo kani playback -Z concrete-playback [--release] -- kani_concrete_playback_{short}\n\n")
-        fh.write("\n".join(blocks))
+                 f"// to re-run: build the overlay, append this module to the harness file and run\n"
+                 f"//   cargo kani playback -Z concrete-playback [--release] -- verif_playback\n\n"
+                 f"#[cfg(test)]\nmod verif_playback {{\n{body}\n}}\n")
+    # locate the harness file in the overlay
+    target = None
+    for d, _, fs in os.walk(os.path.join(ov, "src")):
+        for f in fs:
+            if f == parts[vi] + ".rs":
+                target = os.path.join(d, f)
+    if not target:
+        return None, path, "harness file not found in overlay"
+    orig = open(target).read()
+    open(target, "w").write(orig + f"\n#[cfg(test)]\nmod verif_playback {{\n{body}\n}}\n")
     lab = item["label"]
     needle = lab if lab.startswith("VP[") else lab.replace("unexpected failure in valid region: ", "").rsplit(" [", 1)[0]
     reproduced = False
     notes = []
-    for profile in ([], ["--release"]):
-        cmd = ["cargo", "kani", "playback", "-Z", "concrete-playback"] + profile + ["--", "kani_concrete_playback_" + short + "_"]
-        try:
-            q = subprocess.run(cmd, cwd=ov, env=ENV, capture_output=True, text=True, timeout=timeout)
-        except subprocess.TimeoutExpired:
-            notes.append(f"{'release' if profile else 'dev'}: timeout")
-            continue
-        out = q.stdout + q.stderr
-        m = re.search(r"test result: \w+\. (\d+) passed; (\d+) failed", out)
-        hit = needle in out and re.search(r"panicked at", out) is not None
-        notes.append(f"{'release' if profile else 'dev'}: {m.group(0) if m else 'no result'}; obligation {'reproduced' if hit else 'not reproduced'}")
-        if hit:
-            reproduced = True
+    try:
+        rel_env = dict(ENV)
+        for prof in ("DEV", "TEST"):  # `cargo kani playback` has no --release: same settings via profile overrides
+            rel_env[f"CARGO_PROFILE_{prof}_OPT_LEVEL"] = "3"
+            rel_env[f"CARGO_PROFILE_{prof}_DEBUG_ASSERTIONS"] = "false"
+            rel_env[f"CARGO_PROFILE_{prof}_OVERFLOW_CHECKS"] = "false"
+        for profile in ([], ["--release"]):
+            cmd = ["cargo", "kani", "playback", "-Z", "concrete-playback", "--", "verif_playback"]
+            try:
+                q = subprocess.run(cmd, cwd=ov, env=(rel_env if profile else ENV), capture_output=True, text=True, timeout=timeout)
+            except subprocess.TimeoutExpired:
+                notes.append(f"{'release' if profile else 'dev'}: timeout")
+                continue
+            out = q.stdout + q.stderr
+            m = re.search(r"test result: \w+\. (\d+) passed; (\d+) failed", out)
+            hit = needle in out and re.search(r"panicked at", out) is not None
+            if not m:
+                err = re.findall(r"^error[^\n]*", out, re.M)
+                notes.append(f"{'release' if profile else 'dev'}: no result ({'; '.join(err[:2])})")
+            else:
+                notes.append(f"{'release' if profile else 'dev'}: {m.group(0)}; obligation {'reproduced' if hit else 'not reproduced'}")
+            if hit:
+                reproduced = True
+    finally:
+        open(target, "w").write(orig)
     with open(path, "a") as fh:
         fh.write("\n// native replay: " + "; ".join(notes) + "\n")
     return reproduced, path, "; ".join(notes)
